@@ -6,6 +6,7 @@ import (
 	"encoding/binary"
 	"fmt"
 	"strings"
+	"time"
 
 	"github.com/brewlin/net-protocol/pkg/buffer"
 	"github.com/brewlin/net-protocol/pkg/waiter"
@@ -38,6 +39,7 @@ type World struct {
 	r           *hx.Run
 	Focus       string
 	lastWasData bool
+	Frames      []netsim.Frame
 	is6         []bool
 }
 
@@ -443,5 +445,196 @@ func Gen(r *hx.Run, focus string) {
 				}
 			}
 		}
+	}
+}
+
+// ---------------------------------------------------------------------------
+// ICMP echo (C13)
+
+func describeReply(f netsim.Frame) string {
+	b := f.Bytes
+	if f.Proto == header.IPv4ProtocolNumber && len(b) >= 20 {
+		return fmt.Sprintf("r4 %s %s ttl=%d %s", hx.Hex(b[12:16]), hx.Hex(b[16:20]), b[8], hx.Hex(b[20:]))
+	}
+	if f.Proto == header.IPv6ProtocolNumber && len(b) >= 40 {
+		return fmt.Sprintf("r6 %s %s ttl=%d %s", hx.Hex(b[8:24]), hx.Hex(b[24:40]), b[7], hx.Hex(b[40:]))
+	}
+	return "unparsable"
+}
+
+func (w *World) collect(nic int, expectOne bool) string {
+	var fs []netsim.Frame
+	if expectOne {
+		fs = w.L[nic].WaitFrames(1, 300*time.Millisecond)
+	} else {
+		time.Sleep(2 * time.Millisecond)
+		fs = w.L[nic].Take()
+	}
+	for _, id := range []int{1, 2} {
+		if id != nic {
+			fs = append(fs, w.L[id].Take()...)
+		}
+	}
+	w.Frames = append(w.Frames, fs...)
+	if len(fs) == 0 {
+		return "-"
+	}
+	var p []string
+	for _, f := range fs {
+		p = append(p, describeReply(f))
+	}
+	return strings.Join(p, " | ")
+}
+
+// Echo4 injects an ICMPv4 message (possibly as two IP fragments, possibly split into views).
+func (w *World) Echo4(nic int, src, dst, msg []byte, firstLen int, fragAt int, likely bool) {
+	if fragAt > 0 && fragAt < len(msg) && fragAt%8 == 0 {
+		p1 := netsim.IPv4(src, dst, 1, 77, 0x2000, 64, msg[:fragAt])
+		p2 := netsim.IPv4(src, dst, 1, 77, uint16(fragAt/8), 64, msg[fragAt:])
+		if w.r.R.Intn(2) == 0 {
+			w.L[nic].Inject(header.IPv4ProtocolNumber, "", p2)
+			w.L[nic].Inject(header.IPv4ProtocolNumber, "", p1)
+		} else {
+			w.L[nic].Inject(header.IPv4ProtocolNumber, "", p1)
+			w.L[nic].Inject(header.IPv4ProtocolNumber, "", p2)
+		}
+		firstLen = len(msg) // reassembled: the reply path sees the first fragment's view first
+		// the first view after reassembly is the first fragment's payload
+		firstLen = fragAt
+	} else {
+		pkt := netsim.IPv4(src, dst, 1, 78, 0, 64, msg)
+		cut := 20 + firstLen
+		if firstLen >= len(msg) || firstLen <= 0 {
+			w.L[nic].Inject(header.IPv4ProtocolNumber, "", pkt)
+			firstLen = len(msg)
+		} else {
+			w.L[nic].Inject(header.IPv4ProtocolNumber, "", pkt[:cut], pkt[cut:])
+		}
+	}
+	res := w.collect(nic, likely)
+	w.emit(fmt.Sprintf("echo4 %d %s %s %s %d", nic, hx.Hex(src), hx.Hex(dst), hx.Hex(msg), firstLen), res)
+}
+
+func (w *World) Echo6(nic int, src, dst, msg []byte, firstLen int, likely bool) {
+	pkt := netsim.IPv6(src, dst, 58, 64, msg)
+	cut := 40 + firstLen
+	if firstLen >= len(msg) || firstLen <= 0 {
+		w.L[nic].Inject(header.IPv6ProtocolNumber, "", pkt)
+		firstLen = len(msg)
+	} else {
+		w.L[nic].Inject(header.IPv6ProtocolNumber, "", pkt[:cut], pkt[cut:])
+	}
+	res := w.collect(nic, likely)
+	w.emit(fmt.Sprintf("echo6 %d %s %s %s %d", nic, hx.Hex(src), hx.Hex(dst), hx.Hex(msg), firstLen), res)
+}
+
+func GenEcho(r *hx.Run) {
+	w := &World{r: r, Focus: "C13"}
+	nh := r.Pick(60, 600)
+	for h := 0; h < nh; h++ {
+		w.Reset(false)
+		n := 5 + r.R.Intn(30)
+		for k := 0; k < n; k++ {
+			var plen int
+			switch r.R.Intn(8) {
+			case 0:
+				plen = 0
+			case 1:
+				plen = 1
+			case 2:
+				plen = 1400 + r.R.Intn(200)
+			case 3:
+				plen = []int{7, 8, 9, 55, 56, 57, 1471, 1472}[r.R.Intn(8)]
+			default:
+				plen = r.R.Intn(200)
+			}
+			payload := make([]byte, plen)
+			r.R.Read(payload)
+			ident, seq := r.U16(), r.U16()
+			v6 := r.R.Intn(3) == 0
+			typ := uint8(8)
+			if v6 {
+				typ = 128
+			}
+			weird := false
+			if r.R.Intn(12) == 0 { // not a request: reply type, or something else
+				typ = []uint8{0, 129, 3, 13, 255}[r.R.Intn(5)]
+				weird = true
+			}
+			if v6 {
+				dsts := [][]byte{v6a, v6a, v6a, {0xfe, 0x80, 0, 0, 0, 0, 0, 0, 0, 0, 0, 0, 0, 0, 0, 7}}
+				dst := dsts[r.R.Intn(len(dsts))]
+				msg := netsim.ICMPv6Echo(v6r, dst, typ, ident, seq, payload)
+				if r.R.Intn(15) == 0 && len(msg) > 2 {
+					msg = msg[:r.R.Intn(8)] // truncated header
+					weird = true
+				}
+				fl := 0
+				if len(msg) > 8 && r.R.Intn(3) == 0 {
+					fl = 8 + 2*r.R.Intn((len(msg)-8)/2+1) // even split: every non-final view has even length
+				}
+				own := string(dst) == string(v6a)
+				w.Echo6(1, v6r, dst, msg, fl, own && !weird)
+			} else {
+				dsts := [][]byte{a1, a2, a1, a3, {10, 0, 0, 77}, {10, 0, 1, 77}}
+				dst := dsts[r.R.Intn(len(dsts))]
+				nic := 1
+				if r.R.Intn(5) == 0 {
+					nic = 2
+				}
+				msg := netsim.ICMPv4Echo(typ, ident, seq, payload)
+				if r.R.Intn(15) == 0 {
+					msg = msg[:r.R.Intn(8)]
+					weird = true
+				}
+				fl, frag := 0, 0
+				if len(msg) > 16 && r.R.Intn(4) == 0 {
+					frag = 8 * (1 + r.R.Intn((len(msg)-1)/8))
+				} else if len(msg) > 6 && r.R.Intn(3) == 0 {
+					fl = 6 + 2*r.R.Intn((len(msg)-6)/2+1)
+				}
+				own := (nic == 1 && (string(dst) == string(a1) || string(dst) == string(a2))) || (nic == 2 && string(dst) == string(a3))
+				w.Echo4(nic, []byte{10, 0, 0, 9}, dst, msg, fl, frag, own && !weird && len(msg) >= 8)
+			}
+		}
+		time.Sleep(3 * time.Millisecond)
+		var left []netsim.Frame
+		for _, id := range []int{1, 2} {
+			left = append(left, w.L[id].Take()...)
+		}
+		if len(left) == 0 {
+			w.emit("leftover", "-")
+		} else {
+			w.emit("leftover", fmt.Sprintf("%d frames", len(left)))
+		}
+	}
+	// burst: more requests than the reply queue holds; at most one reply each, every reply valid
+	for b := 0; b < r.Pick(5, 50); b++ {
+		w.Reset(false)
+		nreq := 30
+		for k := 0; k < nreq; k++ {
+			msg := netsim.ICMPv4Echo(8, uint16(b), uint16(k), []byte{byte(k)})
+			w.L[1].Inject(header.IPv4ProtocolNumber, "", netsim.IPv4(rem1, a1, 1, 5, 0, 64, msg))
+		}
+		fs := w.L[1].WaitFrames(nreq, 100*time.Millisecond)
+		seen := map[uint16]int{}
+		bad := 0
+		for _, f := range fs {
+			if len(f.Bytes) >= 28 && f.Bytes[20] == 0 {
+				seen[binary.BigEndian.Uint16(f.Bytes[26:])]++
+			} else {
+				bad++
+			}
+		}
+		dup := 0
+		for _, c := range seen {
+			if c > 1 {
+				dup++
+			}
+		}
+		r.Count("burst")
+		r.Extra[fmt.Sprintf("burst%d_replies", b)] = len(fs)
+		// recorded as an op whose expected output is "dup=0 bad=0 le=true"
+		w.emit("leftover", map[bool]string{true: "-", false: fmt.Sprintf("burst dup=%d bad=%d n=%d", dup, bad, len(fs))}[dup == 0 && bad == 0 && len(fs) <= nreq])
 	}
 }
